@@ -258,6 +258,65 @@ Definition h_uses (a : addr) : M addr :=
   mdo c <- load a;
   match c with CCont _ _ => copy_cont a | CPlate _ _ _ _ => mdo r <- deepcopy_plate a; ret (fst (fst r)) | _ => raise EType end.
 
+(* ---- recipes: Recipe.uses keeps deep copies; Recipe.bake runs the steps on the recipe's own objects.  A step refers to a declared
+   object by its position in the uses list, or -- as the user wrote it -- to a slice object of the user's (a variable) whose plate carries
+   the name of a declared plate.  bake: `x = deepcopy(slice); x.plate = self.results[name]` makes a new slice object pointing at the
+   recipe's current plate; the user's slice is only read. *)
+Definition var (vars : list addr) (v : nat) : M addr :=
+  match nth_error vars v with Some a => ret a | None => raise EOther end.
+Inductive hrref := HRC (n : nat) | HRS (slv : nat) (n : nat).
+Definition hr_name (r : hrref) : nat := match r with HRC n => n | HRS _ n => n end.
+Inductive hrstep :=
+| RTransfer (src dst : hrref) (q : qty)
+| RRemove (t : hrref) (w : what)
+| RFill (t : hrref) (solvent : substance) (q : qty)
+| RDilute (n : nat) (solute : substance) (c : conc) (solvent : substance).
+
+Definition res_get (res : list addr) (n : nat) : M addr :=
+  match nth_error res n with Some a => ret a | None => raise EOther end.
+Definition resolve (vars res : list addr) (r : hrref) : M addr :=
+  match r with
+  | HRC n => res_get res n
+  | HRS v n => mdo sl <- var vars v; mdo sp <- private_slice sl; mdo p <- res_get res n;
+               mdo _ <- store (ps_slice sp) (CSlice p (ps_rg sp)); ret (ps_slice sp)
+  end.
+
+Definition h_transfer_any (sa da : addr) (q : qty) : M (addr * addr) :=
+  mdo sc <- load sa; mdo dc <- load da;
+  match dc, sc with
+  | CCont _ _, CCont _ _ => if Nat.eqb sa da then raise EValue else h_transfer_cc sa da q
+  | CCont _ _, (CPlate _ _ _ _ | CSlice _ _) => h_transfer_sc sa da q
+  | (CPlate _ _ _ _ | CSlice _ _), CCont _ _ => h_transfer_cs sa da q
+  | (CPlate _ _ _ _ | CSlice _ _), (CPlate _ _ _ _ | CSlice _ _) => h_transfer_ss sa da q
+  | _, _ => raise EType
+  end.
+Definition h_remove_any (ta : addr) (w : what) : M addr :=
+  mdo c <- load ta;
+  match c with CCont _ _ => h_remove_c ta w | CPlate _ _ _ _ | CSlice _ _ => h_remove_s ta w | _ => raise EType end.
+Definition h_fill_any (ta : addr) (s : substance) (q : qty) : M addr :=
+  mdo c <- load ta;
+  match c with CCont _ _ => h_fill_c ta s q | CPlate _ _ _ _ | CSlice _ _ => h_fill_s ta s q | _ => raise EType end.
+
+Definition h_rstep (vars res : list addr) (st : hrstep) : M (list addr) :=
+  match st with
+  | RTransfer a b q =>
+      mdo sa <- resolve vars res a; mdo da <- resolve vars res b;
+      mdo r <- h_transfer_any sa da q;
+      ret (set_nth (hr_name b) (snd r) (set_nth (hr_name a) (fst r) res))
+  | RRemove t w => mdo ta <- resolve vars res t; mdo a <- h_remove_any ta w; ret (set_nth (hr_name t) a res)
+  | RFill t s q =>      (* bake fills step.to[0], the recipe's whole object, also when a slice was given (known finding D13) *)
+      mdo ta <- res_get res (hr_name t); mdo a <- h_fill_any ta s q; ret (set_nth (hr_name t) a res)
+  | RDilute n solute c solvent => mdo ta <- res_get res n; mdo a <- h_dilute ta solute c solvent; ret (set_nth n a res)
+  end.
+Fixpoint h_rsteps (vars res : list addr) (steps : list hrstep) : M (list addr) :=
+  match steps with
+  | [] => ret res
+  | st :: t => mdo res' <- h_rstep vars res st; h_rsteps vars res' t
+  end.
+(* r = Recipe(); r.uses(objects...); the steps; r.bake() gives the objects of the recipe in declaration order *)
+Definition h_recipe (vars : list addr) (uses : list nat) (steps : list hrstep) : M (list addr) :=
+  mdo res <- mapM (fun v => mdo a <- var vars v; h_uses a) uses; h_rsteps vars res steps.
+
 (* ---- programs over object variables: variable k is the k-th object returned so far *)
 Inductive hop :=
 | HNewC (name : nat) (mx : option qty) (init : list (substance * qty))
@@ -269,10 +328,9 @@ Inductive hop :=
 | HDilute (v : nat) (solute : substance) (c : conc) (solvent : substance)
 | HSolutionC (name : nat) (solutes : list substance) (sv : nat) (m : sol_mode)
 | HSolFrom (src : nat) (solute : substance) (c : conc) (solvent : substance) (q : qty) (name : nat)
-| HUses (v : nat).
+| HUses (v : nat)
+| HRecipe (uses : list nat) (steps : list hrstep).
 
-Definition var (vars : list addr) (v : nat) : M addr :=
-  match nth_error vars v with Some a => ret a | None => raise EOther end.
 Definition pair_list (p : addr * addr) : list addr := [fst p; snd p].
 
 Definition hstep (vars : list addr) (o : hop) : M (list addr) :=
@@ -308,6 +366,7 @@ Definition hstep (vars : list addr) (o : hop) : M (list addr) :=
   | HSolutionC name solutes sv m => mdo a <- var vars sv; mdo r <- h_solution_c name solutes a m; ret (pair_list r)
   | HSolFrom src solute c solvent q name => mdo a <- var vars src; mdo r <- h_solfrom a solute c solvent q name; ret (pair_list r)
   | HUses v => mdo a <- var vars v; mdo a' <- h_uses a; ret [a']
+  | HRecipe uses steps => h_recipe vars uses steps
   end.
 
 (* a history: failed calls return nothing; the heap continues from where the exception left it *)
